@@ -32,24 +32,25 @@ REQUIRED = {
         Frustum_normalizedZToDepthExc_ok Frustum_normalizedZToDepthExc_error Frustum_ZToDepth_concrete Frustum_ZToDepthExc_ok
         Frustum_screenRadiusExc_ok Frustum_screenRadiusExc_error Frustum_worldRadiusExc_ok Frustum_worldRadiusExc_error
         Frustum_radiusExc_tight Frustum_screenRadiusExc_never Frustum_worldRadiusExc_never
-        Frustum_setFovExc_ok Frustum_setFovExc_error""".split(),
+        Frustum_setFovExc_ok Frustum_setFovExc_error
+        M22.det_ne_zero_of_guards M33.det_of_affine M33.det_ne_zero_of_guards M33.det2_ne_zero_of_guards M44_eta""".split(),
     "ImathVerif.Props.C07GJ": ["M33_gjInverseT_unexc", "M33_gjInverseT_kind", "M33_gjInverseT_ok", "M33_gjInverseT_error", "M33_gjInverseF_eq",
                                "M33_gjInvert_eq",
                                # the extracted trees ARE the C06 hand model at n = 3 (Lemmas/C07GJLink.lean, 1,312 leaves): both directions
                                "M33_gjInverseT_eq_model", "M33_gjInverse0_eq_model", "M33_gjInverseT_error_iff", "M33_gjInverseT_ok_mul",
-                               "M33_gjInverse_failure", "M33_gjInverse_failure_copies", "M33_gjInverseT_never"],
+                               "M33_gjInverse_failure", "M33_gjInverse_failure_copies", "M33_gjInverseT_never", "M33_id_toMat", "M33_eq_id_of_toMat"],
     "ImathVerif.Props.C07Algo": """
         Algo_checkForZeroScaleInRow2_pair Algo_checkForZeroScaleInRow3_pair Algo_checkForZeroScaleInRow2 Algo_checkForZeroScaleInRow3
         Algo_checkForZeroScaleInRow2F_false_iff Algo_checkForZeroScaleInRow3F_false_iff Algo_checkForZeroScaleInRow3_never
         Algo_extractScaling2_pair Algo_extractScalingAndShear2_pair Algo_extractAndRemoveScalingAndShear2_pair
         Algo_removeScalingAndShear2_pair Algo_extractSHRT2_pair Algo_sansScalingAndShear2_pair Algo_removeScaling2_pair
-        Algo_sansScaling2_pair Algo_removeScaling2_fails_iff_extractSHRT2 Algo_pair_reading""".split(),
+        Algo_sansScaling2_pair Algo_removeScaling2_fails_iff_extractSHRT2 Algo_pair_reading M33_eta""".split(),
     # C07's Gauss-Jordan parameters instantiated with C06's proved model (Model/GaussJordan.lean, n = 4): the failure equivalence
     # in BOTH directions through C06's determinant characterisation
     "ImathVerif.Props.C07Link": [
         "gjTs_eq_zero_iff", "gj_eq_one_imp", "gj_eq_one_iff", "M33_adjOverDet_one", "M44_affineInverse_one", "M44_inverseT_ok",
         "M44_inverseT_error", "M44_inverse_copies", "M44_inverseT_ok_iff", "M44_inverseT_error_iff", "M44_inverseT_ok_one",
-        "M44_inverse_failure", "M44_inverse_failure_copies", "M44_inverseT_never", "M44_inverse0_nonaffine_mul"],
+        "M44_inverse_failure", "M44_inverse_failure_copies", "M44_inverseT_never", "M44_inverse0_nonaffine_mul", "M44_eq_one_of_toMat"],
 }
 
 # the one class of input on which the real code is known (by this harness) to break the property; it is reported,
